@@ -58,6 +58,24 @@ claim("C17",
       TRUST + "buffer constants lowered at compile time through the cfg(zlink_verif) hook",
       "TLA+ model checking (TLC) of ReadConn/WriteConn with a size limit + TLC trace validation of boundary sweeps",
       "4/C17")
+claim("C06",
+      "TLC checks the implementation-shaped Chain model (reply_count / index / done bookkeeping) exhaustively "
+      "over all call-flag sequences x conforming reply scripts x trailing frames x groupings of frames into "
+      "reads: one ordered write, yielded = owed, ends exactly, never reads when nothing is owed. TLC-enumerated "
+      "behaviours are replayed against Connection::chain_call/append/send and every execution (all 3^1..3^6 flag "
+      "sequences, random chains) is validated by TLC against ChainTrace (which extends Framing).",
+      TRUST + "server scripts are conforming; frame classes from isolated decodes",
+      "TLA+ model checking (TLC) of Chain + TLC trace validation of recorded chain/stream executions",
+      "4/C06")
+claim("C11",
+      "Chain model with ghost borrows: NoLiveBorrowClobbered holds when items are dropped before the next poll and "
+      "TLC exhibits the counterexample when they are held (what the API permits today = open known finding). "
+      "Executions that hold every yielded item re-read the borrowed bytes after every poll; TLC validates them "
+      "against ChainTrace with exactly the listed deviation enabled: a change not explained by a later transport "
+      "read through the same stream is still a violation.",
+      TRUST + "held references are re-read as raw bytes; open finding C11-held-item-clobbered in known_findings.json",
+      "TLA+ model checking (TLC) with ghost borrow state + TLC trace validation of held-item observations",
+      "4/C11")
 
 
 def main():
